@@ -5,15 +5,19 @@ import Driver.Ops.C18
 import Driver.Ops.Crc
 import Driver.Ops.Cursor
 import Driver.Ops.Delta
+import Driver.Ops.FileSpec
 import Driver.Ops.FileWrite
 import Driver.Ops.Lz4
 import Driver.Ops.Par
 import Driver.Ops.Plain
+import Driver.Ops.RefRead
 import Driver.Ops.Rle
 import Driver.Ops.Schema
 import Driver.Ops.Simd
 import Driver.Ops.Snappy
 import Driver.Ops.Stats
+import Driver.Ops.Thrift
+import Driver.Gen.RefFiles
 /-
 Line-protocol driver.  One harness line in (operation, inputs, and what the real code
 returned), one verdict line out.  See Carquet/Util.lean for the syntax.
@@ -27,15 +31,18 @@ def handlers : List (Line → Option Verdict) :=
     Driver.Ops.Crc.handle,
     Driver.Ops.Cursor.handle,
     Driver.Ops.Delta.handle,
+    Driver.Ops.FileSpec.handle,
     Driver.Ops.FileWrite.handle,
     Driver.Ops.Lz4.handle,
     Driver.Ops.Par.handle,
     Driver.Ops.Plain.handle,
+    Driver.Ops.RefRead.handle,
     Driver.Ops.Rle.handle,
     Driver.Ops.Schema.handle,
     Driver.Ops.Simd.handle,
     Driver.Ops.Snappy.handle,
-    Driver.Ops.Stats.handle ]
+    Driver.Ops.Stats.handle,
+    Driver.Ops.Thrift.handle ]
 
 def stepLine (s : String) : String :=
   match parseLine s with
@@ -57,7 +64,7 @@ partial def loop (h : IO.FS.Stream) (out : IO.FS.Stream) : IO Unit := do
 /-- Generators (`driver --gen <name> <seed> <quick|thorough>`): the Lean side produces inputs for
 the real code (reference-written files for C06); each returns the lines to hand to the harness. -/
 def generators : List (String × (Nat → Bool → List String)) :=
-  [  ]
+  [ ("reffiles", Driver.Gen.RefFiles.gen) ]
 
 def main (args : List String) : IO Unit := do
   let out ← IO.getStdout
